@@ -21,7 +21,7 @@ use std::collections::{BTreeMap, BTreeSet};
 use std::hash::{Hash, Hasher};
 use std::os::unix::fs::PermissionsExt as _;
 use std::path::{Path, PathBuf};
-use std::sync::{Arc, Mutex, Once};
+use std::sync::{Mutex, Once};
 use testutils::{TestThreeWayMergeTreeBuilder, TestWorkspace, commit_with_tree, repo_path};
 
 /// path = component list; `Vec<String>` order is `RepoPath` order (component-wise, prefix first)
@@ -469,7 +469,6 @@ pub fn err_kind(msg: &str) -> &'static str {
     else { "other" }
 }
 
-pub fn arc_unused() -> Option<Arc<()>> { None }
 
 /// oracle failure, also tallied per signature (the failure list itself is capped at 25 entries)
 pub fn ofail(out: &mut Out, sig: &str, detail: String) {
